@@ -660,3 +660,113 @@ Proof.
   - exact (dom_trans n _ _ _ Fa Fb Fc Ha Hb Hc D1 D2).
   - exact (geb_trans_key _ _ _ Na Nb Nc G1 G2).
 Qed.
+
+(* ------------------------------------------------------------------ *)
+(* What survives when components may be NaN (no hypothesis on a, b):
+   < stays irreflexive and asymmetric, dominance stays irreflexive and
+   asymmetric, the derived operators keep their definitional identities.
+   Trichotomy, transitivity, "a >= b means a > b or a == b", reflexivity of ==
+   and the order independence of the maximum are lost: Props/Refuted_C18.v. *)
+Lemma lt_irrefl_any : forall a, lt_lex a a = false.
+Proof.
+  induction a as [|x a IH]; cbn [lt_lex]; [reflexivity|]. rewrite ltb_irrefl_any. exact IH.
+Qed.
+
+Lemma lt_asym_any : forall a b, lt_lex a b = true -> lt_lex b a = false.
+Proof.
+  induction a as [|x a IH]; intros [|y b]; cbn [lt_lex]; intro H; try discriminate; try reflexivity.
+  destruct (F64.ltb x y) eqn:E1.
+  - rewrite (ltb_asym_any x y E1). reflexivity.
+  - destruct (F64.ltb y x) eqn:E2; [discriminate|]. apply IH. exact H.
+Qed.
+
+Lemma dom_loop_refl_any : forall a ob, dom_loop ob a a = ob.
+Proof.
+  induction a as [|x a IH]; intro ob; cbn [dom_loop]; [reflexivity|].
+  unfold F64.gtb. rewrite ltb_irrefl_any. apply IH.
+Qed.
+
+Lemma dom_irrefl_any : forall a, dominating a a = false.
+Proof. intros a. unfold dominating. rewrite dom_loop_refl_any. destruct a; reflexivity. Qed.
+
+Lemma dom_loop_asym_any : forall a b o1, dom_loop o1 a b = true -> dom_loop false b a = true -> False.
+Proof.
+  induction a as [|x a IH]; intros [|y b] o1; cbn [dom_loop]; intros H1 H2; try discriminate.
+  unfold F64.gtb in *.
+  destruct (F64.ltb y x) eqn:E1.
+  - rewrite (ltb_asym_any y x E1) in H2. discriminate.
+  - destruct (F64.ltb x y) eqn:E2; [discriminate|]. eapply IH; eassumption.
+Qed.
+
+Lemma dom_asym_any : forall a b, dominating a b = true -> dominating b a = false.
+Proof.
+  intros a b H. destruct (dominating b a) eqn:E; [exfalso|reflexivity]. unfold dominating in *.
+  destruct a as [|x a]; destruct b as [|y b]; cbn [is_empty negb andb] in *.
+  - discriminate.
+  - discriminate.
+  - discriminate.
+  - eapply dom_loop_asym_any; eassumption.
+Qed.
+
+Lemma dom_implies_gt_any : forall a b, dominating a b = true -> gt a b = true.
+Proof.
+  intros a b. unfold dominating, gt.
+  assert (L : forall a b, dom_loop false a b = true -> lt_lex b a = true).
+  { induction a0 as [|x a0 IH]; intros [|y b0]; cbn [dom_loop lt_lex]; intro H; try discriminate.
+    unfold F64.gtb in H. destruct (F64.ltb y x) eqn:E1; [reflexivity|].
+    destruct (F64.ltb x y) eqn:E2; [discriminate|]. apply IH. exact H. }
+  destruct a as [|x a]; destruct b as [|y b]; cbn [is_empty negb andb]; intro H.
+  - discriminate.
+  - discriminate.
+  - reflexivity.
+  - apply L. exact H.
+Qed.
+
+(* ------------------------------------------------------------------ *)
+(* utility.h: issmall, isnonnegative, almost_equal *)
+From Flocq Require Import IEEE754.BinarySingleNaN.
+
+Lemma sub_self_finite : forall x, F64.is_finite x = true -> F64.sub x x = B754_zero false.
+Proof.
+  intros [s|s| |s m e B] H; try discriminate H.
+  - unfold F64.sub, Bminus. destruct s; reflexivity.
+  - unfold F64.sub, Bminus, Fplus_naive.
+    set (p := Zpos (fst (SpecFloat.shl_align m e (Z.min e e)))).
+    replace (SpecFloat.cond_Zopp s p + SpecFloat.cond_Zopp (negb s) p)%Z with 0%Z by (destruct s; cbn [negb SpecFloat.cond_Zopp]; lia).
+    reflexivity.
+Qed.
+
+Lemma almost_equal_refl_finite : forall x e, F64.is_finite x = true -> almost_equal x x e = true.
+Proof. intros x e H. unfold almost_equal. rewrite (sub_self_finite x H). reflexivity. Qed.
+
+Lemma valmost_equal_refl_finite : forall a e, vis_finite a = true -> valmost_equal a a e = Some true.
+Proof.
+  intros a e H. unfold valmost_equal. rewrite Nat.eqb_refl. unfold vis_finite in H.
+  induction a as [|x a IH]; cbn [almost_equal_loop]; [reflexivity|].
+  cbn [forallb] in H. apply andb_true_iff in H. destruct H as [Hx Ha].
+  rewrite (almost_equal_refl_finite x e Hx). apply IH. exact Ha.
+Qed.
+
+Lemma isnonnegative_key : forall x, nonan x -> isnonnegative x = (0 <=? key x).
+Proof. intros x Hx. unfold isnonnegative. rewrite (geb_key x F64.zero Hx eq_refl). reflexivity. Qed.
+
+Lemma issmall_elementwise : forall f, vissmall f = forallb issmall f.
+Proof. reflexivity. Qed.
+
+Lemma almost_equal_loop_spec : forall a b e, length a = length b ->
+  almost_equal_loop a b e = Some (forallb (fun p => almost_equal (fst p) (snd p) e) (combine a b)).
+Proof.
+  induction a as [|x a IH]; intros [|y b] e L; try discriminate L;
+    cbn [almost_equal_loop combine forallb fst snd]; [reflexivity|].
+  injection L as L. destruct (almost_equal x y e); [apply IH; exact L|reflexivity].
+Qed.
+
+Lemma valmost_equal_spec : forall a b e,
+  (length a = length b ->
+   valmost_equal a b e = Some (forallb (fun p => almost_equal (fst p) (snd p) e) (combine a b))) /\
+  (length a <> length b -> valmost_equal a b e = None).
+Proof.
+  intros a b e. unfold valmost_equal. split; intro L.
+  - rewrite L, Nat.eqb_refl. apply almost_equal_loop_spec. exact L.
+  - destruct (Nat.eqb_spec (length a) (length b)); [contradiction|reflexivity].
+Qed.
